@@ -3,7 +3,7 @@
 From Coq Require Import List Arith NArith.
 From Coq Require String Ascii.
 Import ListNotations.
-From IT Require Import Sdpl.IR Sdpl.Elab Sdpl.Wf Runtime.Actor Runtime.ActorInv Gen.Channel Gen.Literal.
+From IT Require Import Sdpl.IR Sdpl.Elab Sdpl.Wf Runtime.Actor Runtime.ActorInv Runtime.InvUnblock Gen.Channel Gen.Literal.
 
 Section C08.
 Context {A V : Type} (sem : nat -> A -> list V -> option (A * V)) (sem_slf : nat -> A -> list V -> V) (dv : V).
@@ -45,6 +45,25 @@ Theorem C08_unbounded_never_waits : forall (m : model), cap_of m = None ->
   forall s t cid k vs ab rm, at_send s t cid k vs ab -> meth (elab m) k = Some rm -> alive s = true ->
   step sem sem_slf dv (elab m) s (Cl t) <> None.
 Proof. intros m Hc s t cid k vs ab rm. exact (unbounded_never_waits sem sem_slf dv (elab m) s t cid k vs ab rm Hc). Qed.
+(* progress under a bound: a caller blocked on the full queue is released by the actor's next take -- in every
+   reachable state with an idle live actor, the take is enabled (a full queue has a head), removes exactly the head,
+   and the blocked caller's send then succeeds at the tail: accepted once, nothing lost, order kept *)
+Theorem C08_blocked_until_take : forall (m : model) n, cap_of m = Some n ->
+  forall a0 progs sched x q t cid k vs ab rm,
+  let s := run sem sem_slf dv (elab m) a0 progs sched in
+  alive s = true -> busy s = None -> queue s = x :: q -> is_stop x = false ->
+  at_send s t cid k vs ab -> meth (elab m) k = Some rm ->
+  exists s1 s2, step sem sem_slf dv (elab m) s Ac = Some s1 /\ step sem sem_slf dv (elab m) s1 (Cl t) = Some s2
+    /\ deq s1 = deq s ++ [msg_id x]
+    /\ queue s2 = q ++ [Msg cid k (route dv (rm_fields rm) vs)]
+    /\ enq s2 = enq s ++ [cid] /\ lost s2 = lost s.
+Proof. intros m n Hc a0 progs sched x q t cid k vs ab rm. exact (reachable_take_unblocks sem sem_slf dv (elab m) a0 progs sched n x q t cid k vs ab rm Hc). Qed.
+
+(* a blocked caller implies a non-empty queue whenever the capacity is positive (the generator never emits a zero bound:
+   channel = 0 is the unbounded constructor, C08_literal_value_decides) *)
+Theorem C08_blocked_queue_has_head : forall (m : model) n, cap_of m = Some n -> 0 < n ->
+  forall (s : @st A V), room (r_cap (elab m)) (queue s) = false -> exists x q, queue s = x :: q.
+Proof. intros m n Hc Pn s. exact (blocked_queue_has_head (elab m) s n Hc Pn). Qed.
 End C08.
 
 (* generator side: the option decides the capacity as documented; a family member inherits or overrides (0 included) *)
@@ -89,6 +108,8 @@ Print Assumptions C08_blocked_waits.
 Print Assumptions C08_unblocked_enqueues.
 Print Assumptions C08_not_lost.
 Print Assumptions C08_unbounded_never_waits.
+Print Assumptions C08_blocked_until_take.
+Print Assumptions C08_blocked_queue_has_head.
 Print Assumptions C08_literal_value_decides.
 Print Assumptions C08_literal_cap.
 Print Assumptions C08_literal_separators.
